@@ -140,6 +140,8 @@ def symmop_line(poly, sites, order_spins=0):
 
 def pipeline(model, upto="rho"):
     sc = Scenario()
+    if model.get("repeat"):
+        sc.add("repeat 1")        # every prepare()/compute() is issued twice (must be idempotent)
     lattice_lines(sc, model)
     sc.add("terms", "terms")
     sc.add("index %d" % model.get("order_spins", 0))
